@@ -136,6 +136,33 @@ def has_rep(r):
     return r.get("repetition") is not None or any(has_rep(c) for c in r["children"])
 
 
+def nested_iterator_cases():
+    """A custom-sequence repetition around a custom-sequence repetition, the two iterators bearing the SAME name or different
+    ones; and a custom-sequence repetition around a leaf whose cost is itself a sum over a dummy of that name: a bound name
+    shadows, it is not a free symbol of the value."""
+    def node(name, params, links, rep, kids, res=None):
+        return {"name": name, "type": None, "input_params": params, "local_variables": [], "linked_params": links, "ports": [],
+                "resources": res or [], "connections": [], "repetition": rep, "children": kids}
+
+    def custom(count, it, term):
+        return {"count": count, "sequence": {"kind": "custom", "term_expression": term, "iterator_symbol": it}}
+    out = []
+    for outer_it, inner_it in (("i", "i"), ("i", "j"), ("s", "s"), ("k", "k")):
+        leaf = node("leaf", ["N"], [], None, [], [{"name": "T", "type": "additive", "value": E.op("add", E.sym("N"), E.num(1))}])
+        inner = node("inner", ["N", "R"], [["N", [["leaf", "N"]]]],
+                     custom(E.sym("R"), inner_it, E.op("add", E.op("mul", E.num(2), E.sym(inner_it)), E.num(1))), [leaf])
+        root = node("root", ["N", "K", "R"], [["N", [["inner", "N"]]], ["R", [["inner", "R"]]]],
+                    custom(E.sym("K"), outer_it, E.op("add", E.sym(outer_it), E.num(2))), [inner])
+        out.append({"routine": root})
+        # a leaf whose own cost is a sum over a dummy with the outer iterator's name
+        leaf2 = node("leaf", ["N"], [], None, [],
+                     [{"name": "T", "type": "additive", "value": ["b", "sum", outer_it, E.op("mul", E.sym(outer_it), E.sym("N")), E.num(0), E.num(3)]}])
+        root2 = node("root", ["N", "K"], [["N", [["leaf", "N"]]]],
+                     custom(E.sym("K"), outer_it, E.op("add", E.sym(outer_it), E.num(1))), [leaf2])
+        out.append({"routine": root2})
+    return out
+
+
 def hier_repeat_stream(cases):
     from props import c01
 
@@ -164,7 +191,7 @@ def streams(tier, seed):
     # at the assigned point
     from props import c05
     ev = c05.build_cases(rng, 40 if tier == "quick" else 800, 3, p_rep=0.7, repeated_only=True)
-    return [direct, hier_repeat_stream(lib.load_corpus("C07", "hier-repeat") + hier),
+    return [direct, hier_repeat_stream(lib.load_corpus("C07", "hier-repeat") + nested_iterator_cases() + hier),
             c05.mk_stream(lib.load_corpus("C07", "eval-repeat") + ev, name="eval-repeat")]
 
 
